@@ -10,6 +10,7 @@ pub fn dispatch(fields: &[&str]) -> String {
         cmd_tree::dispatch,
         cmd_prover::dispatch,
         cmd_oracle::dispatch,
+        cmd_py::dispatch,
     ] {
         if let Some(a) = d(fields) {
             return a;
